@@ -14,7 +14,7 @@ import random
 
 from vf import si
 
-LABELS = ["A", "B", "C", "E", "F", "G2", "h_1", "Xy", "π", "N*"]
+LABELS = ["A", "B", "C", "E", "F", "G2", "h_1", "Xy", "π", "N*", "2PG", "12", "1"]      # the last three start with / are digits: a label is whatever stands after the (optional) coefficient
 # some labels contain one another on purpose (a look-up by substring instead of by key would confuse them)
 ENVS = ["cyt", "mem", "nuc", "ext", "cytosol", "membrane", "ex", "nuc2",
         "2", "1", "0", "A"]      # labels that look like indices (but are not their own position), a label shared with a species
